@@ -277,7 +277,7 @@ SYN = {"numpy.sqrt": "sqrt", "numpy.log": "log", "math.log": "log", "math.sqrt":
        "numpy.average": "average", "numpy.var": "var", "numpy.tan": "tan", "numpy.linspace": "linspace", "numpy.minimum": "min", "numpy.maximum": "max",
        "numpy.hypot": "hypot", "math.hypot": "hypot", "numpy.nanmedian": "nanmedian", "numpy.nanmean": "nanmean"}
 IDENT_FUNCS = {"numpy.asarray", "numpy.atleast_1d", "numpy.ravel", "numpy.array", "builtins.float", "numpy.float64", "numpy.asanyarray", "numpy.copy",
-               "numpy.squeeze", "numpy.ascontiguousarray"}
+               "numpy.squeeze", "numpy.ascontiguousarray", "numpy.reshape"}
 IDENT_METH = {"reshape", "ravel", "copy", "astype", "flatten", "squeeze"}
 # symbol families: a different member in the same position is a definite mismatch (DESIGN §2.1)
 FAMILIES = [{"round", "floor", "ceil", "trunc", "int", "floordiv"}, {"min", "max", "nanmin", "nanmax"}, {"sin", "cos", "tan"},
